@@ -475,8 +475,30 @@ def c07(chk, thorough):
         chk.floor(r_, fl)
 
 
+def c17(chk, thorough):
+    from . import kmeanscheck, slices
+    chk.explanation = (
+        'Decides the k-means clauses of C17 that are visible in the shape of the code (exact arithmetic): (KM.nearest) every row gets the index of '
+        'the first centroid at minimal Euclidean distance -- distance cell form over all columns, every centroid visited, running best taken from '
+        'the first centroid and replaced only on a strictly smaller distance, label stored for the same row, hence in range; (KM.centroid-mean) '
+        'each centroid is the sum of the rows carrying its label divided by their number -- scatter by label from zeroed storage, one count per '
+        'row, guarded division by the own count, that matrix returned; (S1-3, S4, S6, S7) the rows are partitioned among the label / distance '
+        'workers for every (rows, threads) pair, workers write only their own rows and carry no accumulator across rows, so labels do not depend '
+        'on the thread count. NOT decided: convergence up to the documented tolerance, every clause about the selection methods (MDC, both '
+        'max-min implementations, k-means++): distinct in-range indices, farthest-first optimality, equality of the two implementations.')
+    chk.assumptions = ['real arithmetic', 'distinct parameters do not alias', 'thread counts >= 1']
+    prog = load_program(chk, ['clustering.c', 'metricspace.c', 'matrix.c', 'vector.c', 'tensor.c', 'memwrapper.c', 'numeric.c'])
+    kmeanscheck.run(chk, prog)
+    slices.run(chk, prog, rmax=40 if thorough else 12, nmax=24 if thorough else 8, dom=4 if thorough else 3)
+    chk.floor('KM.nearest', 4)
+    chk.floor('KM.centroid-mean', 6)
+    chk.floor('S1-3.partition', 3)
+    chk.floor('S7.row-accumulators', 3)
+
+
 CHECKS = {
     'C07': c07,
+    'C17': c17,
     'C13': c13,
     'C11': c11,
     'C12': c12,
